@@ -42,6 +42,7 @@ type Ctx struct {
 	Assume   []string
 	Explain  string
 	Quiet    bool
+	NoEvid   bool // replay / --only runs must not overwrite the property's evidence file
 	start    time.Time
 	nfuncs   int
 }
@@ -246,7 +247,9 @@ func (c *Ctx) Finish() int {
 	}
 	b, _ := json.MarshalIndent(ev, "", " ")
 	os.MkdirAll(filepath.Join(vd, "evidence"), 0o755)
-	if err := os.WriteFile(filepath.Join(vd, "evidence", c.Prop+".json"), b, 0o644); err != nil {
+	if c.NoEvid {
+		// partial run: leave the evidence of the last full run in place
+	} else if err := os.WriteFile(filepath.Join(vd, "evidence", c.Prop+".json"), b, 0o644); err != nil {
 		fmt.Println("cannot write evidence:", err)
 		return 2
 	}
